@@ -114,8 +114,14 @@ func NewKauditAt(t time.Time) *Kaudit {
 // timestamps while sequence numbers keep increasing.
 func (k *Kaudit) StepBack(ms int64) { k.base -= ms }
 
+// NearSerialWrap puts the kernel's 32-bit audit serial number k events before its wrap-around.
+func (k *Kaudit) NearSerialWrap(before int) { k.seq = (1 << 32) - 1 - before }
+
 func (k *Kaudit) next() (int, time.Time, string) {
 	k.seq++
+	if k.seq > (1<<32)-1 {
+		k.seq = 0 // the serial is a 32-bit counter
+	}
 	k.n++
 	ms := k.base + k.n*7
 	for k.used[ms] {
@@ -281,6 +287,20 @@ var algs = []string{"ED25519", "RSA", "ECDSA", "ED25519-SK"}
 var cmds = [][]string{{"ls", "-la"}, {"cat", "/etc/resolv.conf"}, {"id"}, {"sudo", "-i"}, {"rm", "-rf", "/tmp/x"}, {"vi", "notes.txt"},
 	{"grep", " 500 ", "access.log"}, {"sh", "-c", "echo \"done\" "}, {"touch", "\tfile with blanks "}}
 
+// userName draws an account name that is unique per login; some end in the upper-case letters
+// "ID" (DAVID, ANDROID, svcID are ordinary account names).
+func userName(t *simrt.Tape, uniq int) string {
+	i := t.Choose(len(users)+2, "user")
+	switch {
+	case i < len(users):
+		return fmt.Sprintf("%s%d", users[i], uniq)
+	case i == len(users):
+		return fmt.Sprintf("u%dDAVID", uniq)
+	default:
+		return fmt.Sprintf("svc%dID", uniq)
+	}
+}
+
 func b64ish(t *simrt.Tape, n int) string {
 	const cs = "ABCDEFGHIJKLMNOPQRSTUVWXYZabcdefghijklmnopqrstuvwxyz0123456789+/"
 	b := make([]byte, n)
@@ -293,9 +313,12 @@ func b64ish(t *simrt.Tape, n int) string {
 // GenLogin draws a login for pid. uniq makes identity fields distinct per login so that a
 // mix-up between logins is always visible.
 func GenLogin(t *simrt.Tape, pid, uniq int) *LoginSpec {
-	l := &LoginSpec{PID: pid, User: fmt.Sprintf("%s%d", users[t.Choose(len(users), "user")], uniq),
+	l := &LoginSpec{PID: pid, User: userName(t, uniq),
 		IP: ips[t.Choose(len(ips), "ip")], Port: 1024 + uniq*13 + t.Choose(7, "port"),
 		Alg: algs[t.Choose(len(algs), "alg")], FP: b64ish(t, 43)}
+	if t.Choose(8, "fp.id") == 7 {
+		l.FP = l.FP[:41] + "ID" // a fingerprint may end in any two base64 characters
+	}
 	switch t.Choose(4, "form") {
 	case 0:
 		l.Form = "cert"
@@ -353,7 +376,18 @@ func GenAction(t *simrt.Tape, k *Kaudit, ses string, pid, uid int) *KEvent {
 		// a compound event that the kernel leads with a record other than SYSCALL
 		return k.AVC(ses, pid+200+t.Choose(50, "cpid"), uid)
 	default:
-		argv := cmds[t.Choose(len(cmds), "cmd")]
+		ci := t.Choose(len(cmds)+1, "cmd")
+		var argv []string
+		if ci == len(cmds) {
+			// a command line long enough for an EXECVE record of 4.5-6.6 KB (below the 7.5 KB at which
+			// the kernel starts a second EXECVE record) and a UserAction of more than 4 KiB
+			argv = []string{"tar", "czf", "/tmp/backup.tgz"}
+			for i, n := 0, 200+t.Choose(100, "cmd.long"); i < n; i++ {
+				argv = append(argv, fmt.Sprintf("file-%04d.dat", i))
+			}
+		} else {
+			argv = cmds[ci]
+		}
 		return k.Exec(ses, pid+200+t.Choose(50, "cpid"), uid, argv, t.Choose(4, "ok") != 0, t.Choose(4, "execve") != 0, t.Choose(4, "eoe") == 0)
 	}
 }
